@@ -34,7 +34,7 @@ def build_model(it, w, spec, generic_bank=True):
     bank = up_bank = None
     if eq:
         G = group(D)
-        kinds = needed_kinds([in_sig, out_sig])
+        kinds = needed_kinds([in_sig, out_sig] + ([tuple((tuple(t), c) for t, c in spec["mid_keys"])] if spec.get("mid_keys") else []))
         if spec.get("missing"):
             kinds = [k for k in kinds if tuple(k) not in [tuple(m) for m in spec["missing"]]]
         if spec.get("_plain_bank"):
@@ -56,6 +56,9 @@ def build_model(it, w, spec, generic_bank=True):
     cls = spec["cls"]
     common = dict(use_bias=spec.get("use_bias", "auto"), activation_f=act, equivariant=eq, conv_filters=bank, key=Key(0))
     common.update(kw)
+    if spec.get("mid_keys") and cls != "ConvBlock":
+        geomm = it.get_module(GEOM)
+        common["mid_keys"] = geomm.Signature(tuple((tuple(t), c) for t, c in spec["mid_keys"]))
     if cls == "ResNet":
         return models.ResNet(D, in_sig, out_sig, spec["depth"], num_blocks=spec.get("num_blocks", 1), num_conv=spec.get("num_conv", 1), use_group_norm=spec.get("use_group_norm", True), preactivation_order=spec.get("preactivation_order", True), **common)
     if cls == "DilResNet":
@@ -64,7 +67,7 @@ def build_model(it, w, spec, generic_bank=True):
         return models.UNet(D, in_sig, out_sig, spec["depth"], num_downsamples=spec.get("num_downsamples", 1), num_conv=spec.get("num_conv", 1), upsample_filters=up_bank, use_group_norm=spec.get("use_group_norm", False), use_batch_norm=spec.get("use_batch_norm", False), **common)
     if cls == "ConvBlock":
         common.pop("activation_f")
-        return models.ConvBlock(D, in_sig, out_sig, spec.get("use_bias", "auto"), act, eq, bank, spec.get("kernel_size"), spec.get("use_group_norm", False), False, spec.get("preactivation_order", False), Key(0)) if False else models.ConvBlock(D, in_sig, out_sig, use_bias=spec.get("use_bias", "auto"), activation_f=act, equivariant=eq, conv_filters=bank, kernel_size=spec.get("kernel_size"), use_group_norm=spec.get("use_group_norm", False), preactivation_order=spec.get("preactivation_order", False), key=Key(0))
+        return models.ConvBlock(D, in_sig, out_sig, spec.get("use_bias", "auto"), act, eq, bank, spec.get("kernel_size"), spec.get("use_group_norm", False), False, spec.get("preactivation_order", False), Key(0)) if False else models.ConvBlock(D, in_sig, out_sig, use_bias=spec.get("use_bias", "auto"), activation_f=act, equivariant=eq, conv_filters=bank, kernel_size=spec.get("kernel_size"), use_group_norm=spec.get("use_group_norm", False), use_batch_norm=spec.get("use_batch_norm", False), preactivation_order=spec.get("preactivation_order", False), key=Key(0))
     raise ValueError(cls)
 
 
@@ -77,7 +80,28 @@ def spatial_for(spec):
 
 
 def reachable_outputs(spec):
-    """Requested output types reachable from the input types through the filter types present (equivariant mode)."""
+    """Requested output signature restricted to the types reachable from the input types through the filter
+    types present in the bank (equivariant mode), in the requested order.  Returns None when the answer depends
+    on how many layers the architecture has (a type reachable only in >= 2 steps): such configurations are not
+    used as obligations."""
     in_sig = [(tuple(t), c) for t, c in spec["input"]]
     out_sig = [(tuple(t), c) for t, c in spec["output"]]
-    return out_sig
+    missing = set(tuple(m) for m in spec.get("missing", ()))
+    if not spec.get("equivariant", True) or not missing:
+        return out_sig
+    bank = set(tuple(k) for k in needed_kinds([in_sig, out_sig])) - missing
+
+    def step(src, dst):
+        return set(t for t in dst if any(((s[0] + t[0]), (s[1] + t[1]) % 2) in bank for s in src))
+
+    ins = set(t for t, _ in in_sig)
+    outs = [t for t, _ in out_sig]
+    if spec["cls"] == "ConvBlock":
+        r = step(ins, outs)
+        return [(t, c) for t, c in out_sig if t in r]
+    mid = ins | set(outs)
+    r1 = step(ins, mid)
+    if step(r1, mid) != r1:
+        return None
+    r = step(r1, outs)
+    return [(t, c) for t, c in out_sig if t in r]
